@@ -43,6 +43,8 @@ type Solver struct {
 	inPath     bool
 	Queries    int
 	Unknowns   int
+	finalQuery bool
+	Discarded  int // models refuted by a second solver
 	Errors     []string
 	SolverTime time.Duration
 	ByEngine   map[string]int
@@ -219,6 +221,7 @@ func (s *Solver) Assert(t *Term) {
 // and want is non-empty, the values of those terms are returned (by index).
 func (s *Solver) Check(extra *Term, want []*Term, final bool) (Result, []uint64) {
 	s.Queries++
+	s.finalQuery = final
 	start := time.Now()
 	var queryText string
 	defer func() {
@@ -312,6 +315,12 @@ func (s *Solver) Check(extra *Term, want []*Term, final bool) (Result, []uint64)
 		}
 	}
 	s.raw("(pop 1)\n")
+	if res == Sat && len(want) > 0 && s.queryHasFP && s.finalQuery &&
+		!s.modelHolds("(set-option :produce-models true)\n(set-logic ALL)\n"+s.script.String(), queryText, want, vals, "z3") {
+		s.Discarded++
+		s.ByEngine["model-refuted-by-second-solver"]++
+		return s.portfolio(queryText, want)
+	}
 	if res == Unknown {
 		s.Unknowns++
 	}
@@ -321,9 +330,22 @@ func (s *Solver) Check(extra *Term, want []*Term, final bool) (Result, []uint64)
 
 // portfolio runs script+query one-shot on cvc5 and z3 in parallel; first definitive answer wins.
 func (s *Solver) portfolio(queryText string, want []*Term) (Result, []uint64) {
+	res, vals := s.portfolioOnce(queryText, want, s.TimeoutMs)
+	if res == Unknown && s.finalQuery {
+		// an assertion obligation nobody decided in time: one more race with 2.5x the budget before
+		// it is reported inconclusive (a loaded machine makes 20 s queries miss a 60 s wall-clock cap)
+		s.Unknowns--
+		s.ByEngine["retried-with-longer-timeout"]++
+		res, vals = s.portfolioOnce(queryText, want, s.TimeoutMs*5/2)
+	}
+	return res, vals
+}
+
+func (s *Solver) portfolioOnce(queryText string, want []*Term, timeoutMs int) (Result, []uint64) {
 	var sb strings.Builder
 	sb.WriteString("(set-option :produce-models true)\n(set-logic ALL)\n")
 	sb.WriteString(s.script.String())
+	base := sb.String()
 	sb.WriteString(strings.TrimPrefix(queryText, "(push 1)\n"))
 	for _, w := range want {
 		sb.WriteString("(get-value (" + w.ref() + "))\n")
@@ -334,7 +356,7 @@ func (s *Solver) portfolio(queryText string, want []*Term) (Result, []uint64) {
 		res Result
 		out string
 	}
-	ctx, cancel := context.WithTimeout(context.Background(), time.Duration(s.TimeoutMs)*time.Millisecond)
+	ctx, cancel := context.WithTimeout(context.Background(), time.Duration(timeoutMs)*time.Millisecond)
 	defer cancel()
 	ch := make(chan ans, 4)
 	run := func(eng string, args ...string) {
@@ -377,10 +399,20 @@ func (s *Solver) portfolio(queryText string, want []*Term) (Result, []uint64) {
 				s.Errors = append(s.Errors, a.eng+" get-value: "+err.Error())
 				continue
 			}
+			if s.queryHasFP && s.finalQuery && !s.modelHolds(base, queryText, want, v, a.eng) {
+				s.Discarded++
+		s.ByEngine["model-refuted-by-second-solver"]++
+				continue
+			}
 			vals = v
 		}
 		res = a.res
 		s.ByEngine[a.eng]++
+		if res == Sat && os.Getenv("VERIF_DEBUG_SOLVER") != "" {
+			s.dumpN++
+			fn := fmt.Sprintf("/tmp/sat_%s_%d_%d.smt2", a.eng, os.Getpid(), s.dumpN)
+			os.WriteFile(fn, []byte(text+"\n; OUTPUT\n; "+strings.ReplaceAll(a.out, "\n", "\n; ")), 0o644)
+		}
 		break
 	}
 	cancel()
@@ -394,6 +426,45 @@ func (s *Solver) portfolio(queryText string, want []*Term) (Result, []uint64) {
 		}
 	}
 	return res, vals
+}
+
+// modelHolds re-checks a model returned for a floating-point query: the inputs are pinned to the
+// model's values and a different solver is asked whether the query is still satisfiable. A model
+// another solver refutes (observed once with out-of-range bit-vector values on an FP query) is
+// discarded rather than reported; an inconclusive re-check accepts the model (native replay decides).
+func (s *Solver) modelHolds(base, queryText string, want []*Term, vals []uint64, from string) bool {
+	var sb strings.Builder
+	sb.WriteString(base)
+	for i, w := range want {
+		lit := ""
+		switch w.Sort.K {
+		case KBool:
+			lit = "false"
+			if vals[i] != 0 {
+				lit = "true"
+			}
+		case KBV:
+			lit = fmt.Sprintf("(_ bv%d %d)", vals[i], w.Sort.W)
+		default:
+			if vals[i]&0x7ff0000000000000 == 0x7ff0000000000000 && vals[i]&0x000fffffffffffff != 0 {
+				lit = "(_ NaN 11 53)"
+			} else {
+				lit = fmt.Sprintf("((_ to_fp 11 53) #x%016x)", vals[i])
+			}
+		}
+		sb.WriteString("(assert (= " + w.ref() + " " + lit + "))\n")
+	}
+	sb.WriteString(strings.TrimPrefix(queryText, "(push 1)\n"))
+	args := []string{"z3-new", "-in"}
+	if from == "z3-new" {
+		args = []string{"cvc5", "--lang=smt2", "--fp-exp", "-"}
+	}
+	ctx, cancel := context.WithTimeout(context.Background(), 20*time.Second)
+	defer cancel()
+	cmd := exec.CommandContext(ctx, args[0], args[1:]...)
+	cmd.Stdin = strings.NewReader(sb.String())
+	out, _ := cmd.Output()
+	return strings.SplitN(strings.TrimSpace(string(out)), "\n", 2)[0] != "unsat"
 }
 
 // ---- s-expression value parsing
